@@ -291,6 +291,21 @@ func normalizeTypeName(t types.Type) string {
 // hash and the required calls of a signature) to what the function is called.
 const selfCallSignature = "self"
 
+// isSelfCall reports whether callee is the calling function itself, a function that
+// encloses it (a literal calling the function it is written in), or an instantiation of
+// the same generic function.  All of these are named after the function being analysed.
+func isSelfCall(callee, caller *ssa.Function) bool {
+	for f := caller; f != nil; f = f.Parent() {
+		if callee == f {
+			return true
+		}
+		if o := callee.Origin(); o != nil && (o == f || o == f.Origin()) {
+			return true
+		}
+	}
+	return false
+}
+
 func extractCallSignature(call *ssa.Call) string {
 	if call.Call.IsInvoke() {
 		recvType := call.Call.Value.Type()
@@ -299,7 +314,7 @@ func extractCallSignature(call *ssa.Call) string {
 
 	switch v := call.Call.Value.(type) {
 	case *ssa.Function:
-		if v == call.Parent() {
+		if isSelfCall(v, call.Parent()) {
 			return selfCallSignature
 		}
 		return extractFunctionSig(v)
@@ -331,7 +346,7 @@ func extractGoSignature(g *ssa.Go) string {
 
 	switch v := g.Call.Value.(type) {
 	case *ssa.Function:
-		if v == g.Parent() {
+		if isSelfCall(v, g.Parent()) {
 			return selfCallSignature
 		}
 		return extractFunctionSig(v)
@@ -356,7 +371,7 @@ func extractDeferSignature(d *ssa.Defer) string {
 
 	switch v := d.Call.Value.(type) {
 	case *ssa.Function:
-		if v == d.Parent() {
+		if isSelfCall(v, d.Parent()) {
 			return selfCallSignature
 		}
 		return extractFunctionSig(v)
